@@ -75,12 +75,89 @@ def items_for(reg, prop):
     return out
 
 
-def run_items(items, jobs=16):
+def _child(fn, arg, q):
+    try:
+        q.put(fn(arg))
+    except Exception:
+        q.put(("__error__", traceback.format_exc(limit=6)))
+
+
+def _run_killable(fn, args, jobs, limit_s, key=lambda a: a):
+    """Run fn(arg) for every arg, each in its own process, at most `jobs` at a time; a process
+    that exceeds limit_s wall-clock seconds is killed.  Returns {key(arg): result}."""
+    ctx = mp.get_context("fork")
+    out = {}
+    pending = list(args)
+    running = []
+    while pending or running:
+        while pending and len(running) < jobs:
+            a = pending.pop(0)
+            q = ctx.Queue()
+            p = ctx.Process(target=_child, args=(fn, a, q), daemon=True)
+            p.start()
+            running.append((a, p, q, time.time()))
+        for item in list(running):
+            a, p, q, t0 = item
+            got = False
+            res = None
+            try:
+                res = q.get_nowait()
+                got = True
+            except Exception:
+                if not p.is_alive():
+                    try:
+                        res = q.get(timeout=1)
+                    except Exception:
+                        res = ("__error__", "process ended without a result")
+                    got = True
+            if got:
+                out[key(a)] = res
+                p.join(1)
+                if p.is_alive():
+                    p.kill()
+                running.remove(item)
+            elif time.time() - t0 > limit_s:
+                p.kill()
+                out[key(a)] = ("__timeout__", f"killed after {limit_s} s")
+                running.remove(item)
+        time.sleep(0.03)
+    return out
+
+
+def _is_fail(res):
+    return isinstance(res, tuple) and len(res) == 2 and res[0] in ("__error__", "__timeout__")
+
+
+def _run_native(native_jobs, jobs, limit_s):
+    """Each native search runs in its own killable process (the real code may hang on a
+    counter-example; the per-call watchdog reports that, this limit is the backstop)."""
+    raw = _run_killable(_native, native_jobs, jobs, limit_s, key=lambda a: a[0])
+    out = {}
+    for name, res in raw.items():
+        out[name] = (None, {"error": f"native search: {res[1]}"}) if _is_fail(res) else res[1]
+    return out
+
+
+VERIFY_LIMIT_S = float(os.environ.get("PYVC_VERIFY_LIMIT_S", "300"))
+
+
+def run_items(items, jobs=16, limit_s=None):
+    """Verify every item in its own killable process: a solver call that ignores its timeout
+    must not hang the check (the contract is then 'undecided', never a violation)."""
     if not items:
         return []
-    ctx = mp.get_context("fork")
-    with cf.ProcessPoolExecutor(max_workers=min(jobs, len(items)), mp_context=ctx) as ex:
-        return list(ex.map(_verify, items))
+    raw = _run_killable(_verify, items, jobs, limit_s or VERIFY_LIMIT_S, key=lambda a: a)
+    out = []
+    for it in items:
+        res = raw.get(it)
+        if _is_fail(res):
+            kind, name = it
+            out.append({"contract": {"lemma": "lemma:", "static": "static:"}.get(kind, "") + name,
+                        "status": "undecided" if res[0] == "__timeout__" else "engine-error", "unsupported": res[1], "obligations": [],
+                        "props": [], "functions": [], "assumed_contracts": [], "inlined": [], "paths": 0, "covers": 0, "solver_time_s": 0})
+        else:
+            out.append(res)
+    return out
 
 
 def load_ledger():
@@ -111,15 +188,7 @@ def run(prop, tier="quick", seed=0, jobs=16):
         native_jobs.append((name, seed, n_native * boost, first))
     native = {}
     if native_jobs:
-        ctx = mp.get_context("fork")
-        with cf.ProcessPoolExecutor(max_workers=min(jobs, len(native_jobs)), mp_context=ctx) as ex:
-            futs = {ex.submit(_native, j): j[0] for j in native_jobs}
-            for f, nm in futs.items():
-                try:
-                    name, res = f.result(timeout=240 if tier == "quick" else 1200)
-                    native[name] = res
-                except Exception as e:
-                    native[nm] = (None, {"error": f"native search did not finish: {e!r}"})
+        native = _run_native(native_jobs, jobs, 240 if tier == "quick" else 1200)
     violations, degraded, not_proved = [], [], []
     obligations = discharged = 0
     backends = {}
